@@ -120,9 +120,11 @@ def rule_key(run, F, cfg):
                  "the whole mask is a component of the grouping key (`{:b}` of filter.mask)"),
         "tag": ("key", "tag" in direct,
                 "the tag VALUE is a component of the grouping key (not merely tag.is_some())"),
-        "opt_domains": ("select", sel_has(r"Option::is_none\(arg:filter\.opt_domains\)$", 1),
+        "opt_domains": ("select", sel_has(r"Option::is_none\(arg:filter\.opt_domains\)$", 1)
+                        or sel_has(r"Option::is_some\(arg:filter\.opt_domains\)$", 0),
                         "select requires opt_domains.is_none()"),
-        "opt_not_domains": ("select", sel_has(r"Option::is_none\(arg:filter\.opt_not_domains\)$", 1),
+        "opt_not_domains": ("select", sel_has(r"Option::is_none\(arg:filter\.opt_not_domains\)$", 1)
+                            or sel_has(r"Option::is_some\(arg:filter\.opt_not_domains\)$", 0),
                             "select requires opt_not_domains.is_none()"),
         "hostname": ("select", sel_has(r"::is_hostname_anchor\(arg:filter\)$", 0),
                      "select requires !is_hostname_anchor(); hostname is Some only for "
